@@ -207,7 +207,10 @@ def run(ctx: vlib.Ctx):
     ctx.hist("programs", "distinct-modulo-uuid", len(texts))
 
     # ---- per-program kernel-checked closedness (translation validation)
+    t_workers = time.time() - t_start
+    t1 = time.time()
     coq_programs(ctx, programs, attr_cases, all_res)
+    ctx.notes.append(f"phase times: theorems+schemas {t_workers:.0f} s, translation + shard compilation {time.time() - t1:.0f} s (load {os.getloadavg()[0]:.0f})")
 
     for fam, r in all_res[:3]:
         if r["programs"]:
@@ -279,7 +282,14 @@ def coq_programs(ctx, programs, attr_cases, all_res):
         files.append((f"c17_closed_{ctx.seed}_{si // shard}", txt))
         meta.append((chunk, ok_idx, [(fam, idx) for fam, idx, reads, sets in attr_cases if (fam, idx) in keys], info))
     coq_programs._seen = set()
-    res = vlib.coq_eval_many(files, timeout=900, jobs=4 if ctx.quick() else 12)
+    jobs = 4 if ctx.quick() else 12
+    res = coqc_many(files, timeout=900, jobs=jobs)
+    # green shards: the kernel accepted `shard_closed`; for the others compile the diagnosis variant to learn which cases fail
+    redo = [k for k, (ok, out) in enumerate(res) if not ok]
+    if redo:
+        res2 = coqc_many([(files[k][0] + "_diag", meta[k][3]["diag"]) for k in redo], timeout=900, jobs=jobs)
+        for k, r2 in zip(redo, res2):
+            res[k] = (False, r2[1])
     n_ok = 0
     bad_programs = []
     bad_attrs = []
@@ -288,6 +298,8 @@ def coq_programs(ctx, programs, attr_cases, all_res):
     bad_asm = []
     for (name, _), (ok, out), (chunk, ok_idx, akeys, info) in zip(files, res, meta):
         lists = _parse_lists(out)
+        if ok and len(lists) == 1:
+            lists = [[], [], [], lists[0], []]       # accepted by the kernel; only the out-of-domain count is printed
         if len(lists) < 5:
             ctx.not_shown(f"closedness shard {name}", "coqc failed: " + out[-1500:])
             continue
@@ -340,6 +352,42 @@ def coq_programs(ctx, programs, attr_cases, all_res):
                       "check_closed = false: some path loads a name that is unbound / not in the namespace:\n" + code[:2500])
     for k in bad_attrs[:5]:
         ctx.not_shown(f"holder attributes of schema {k}", "a generated attribute is read that no captured program installs")
+
+
+def coqc_many(named: list[tuple[str, str]], timeout: int, jobs: int) -> list[tuple[bool, str]]:
+    """compile case files in parallel; output goes to files (a failing lemma can print more than a pipe buffer holds)"""
+    os.makedirs(vlib.CASES, exist_ok=True)
+    results: list = [None] * len(named)
+    pending = list(enumerate(named))
+    running = []
+    while pending or running:
+        while pending and len(running) < jobs:
+            i, (name, vtext) = pending.pop(0)
+            with open(os.path.join(vlib.CASES, f"{name}.v"), "w") as f:
+                f.write(vtext)
+            logp = os.path.join(vlib.CASES, f"{name}.log")
+            lf = open(logp, "w")
+            p = subprocess.Popen(["timeout", str(timeout), "coqc"] + vlib.COQ_FLAGS + [os.path.join("cases", f"{name}.v")],
+                                 cwd=vlib.COQ, stdout=lf, stderr=subprocess.STDOUT)
+            running.append((i, p, lf, logp))
+        still = []
+        for i, p, lf, logp in running:
+            if p.poll() is None:
+                still.append((i, p, lf, logp))
+            else:
+                lf.close()
+                with open(logp, errors="replace") as f:
+                    out = f.read()
+                results[i] = (p.returncode == 0, out[-20000:] if p.returncode == 0 else out[:6000] + "\n...\n" + out[-6000:])
+                for ext in (".log", ".vo", ".vok", ".vos", ".glob"):
+                    try:
+                        os.remove(os.path.join(vlib.CASES, named[i][0] + ext))
+                    except OSError:
+                        pass
+        running = still
+        if running:
+            time.sleep(0.05)
+    return [r if r is not None else (False, "not run") for r in results]
 
 
 def _compiles(code: str) -> bool:
